@@ -24,7 +24,7 @@ CHECKS = {
         LOOP_NOTE + " Program order only: instruction reordering across the fences is invisible to any test.",
         "DESIGN.md section 4, C02"),
     "C03": (
-        "property-based testing: closed form s*T*ceil(n/T) vs per-thread call counts, recorded samples, Stats and printed cells",
+        "property-based testing: closed form s*T*ceil(n/T) vs per-thread call counts, recorded samples, Stats and printed cells; the same closed form over generated crates run through main(), run_benches(), test_benches() and through builder calls followed by config_with_args() over real flags and DIVAN_* variables (child process)",
         "Generated (n, s, T, mode, entry, shape, max_time in {unset,0}) with n biased to {0,1,T-1,T,T+1,default}; the per-thread number of timed sections and calls, the recorded samples, Stats.sample_count/iter_count and the printed samples/iters cells must equal the closed form of the statement. Exploration only.",
         LOOP_NOTE,
         "DESIGN.md section 4, C03"),
@@ -120,8 +120,15 @@ NOT_YET = {
 
 def main():
     checks = []
+    fuzzed = {}
+    for l in open("/verif/harness/fuzz/targets.txt"):
+        if l.strip():
+            fuzzed.setdefault(l.split()[0], []).append(l.split()[2])
     for pid in sorted(CHECKS):
         tech, text, note, ref = CHECKS[pid]
+        if pid in fuzzed:
+            tech += "; thorough tier adds coverage-guided fuzzing (libFuzzer targets " + ", ".join(fuzzed[pid]) + ": fuzzer bytes drive the same generator, same oracle in-target, in-target shrinking, violation confirmed by the ordinary harness before it is reported)"
+            ref += "; section 14 (E4)"
         checks.append({
             "property_id": pid,
             "quick_cmd": f"./check {pid} --tier quick",
@@ -153,7 +160,7 @@ def main():
         },
         "engines": [
             {"name": "vcheck", "path": "/verif/harness", "serves_properties": sorted(CHECKS),
-             "kind_free_text": "Rust binary driving proptest TestRunner (fixed seeds from VERIF_SEED, 16 shard processes), small-scope enumeration, a deterministic thread scheduler for generated schedules, reference models/oracles per property, shrinking to JSON replay files"},
+             "kind_free_text": "Rust binary driving proptest TestRunner (fixed seeds from VERIF_SEED, 16 shard processes), small-scope enumeration, a deterministic thread scheduler for generated schedules, libFuzzer campaigns (cargo-fuzz, thorough tier) over the same generators and oracles, reference models/oracles per property, shrinking to JSON replay files"},
         ],
         "checks": checks,
         "not_applicable": not_applicable,
